@@ -81,7 +81,9 @@ fn body(s: &Script) -> Result<(), String> {
             if cfg!(not(feature = "inproc")) {
                 let want = (*us / 1000) as i64;
                 let total: i64 = pt[before..].iter().map(|t| if *t < 0 { i64::MAX / 4 } else { *t as i64 }).sum();
-                if total < want {
+                // (only observable if the implementation waits with poll(2) at all; the real-time
+                // cases cover any other way of waiting)
+                if pt.len() > before && total < want {
                     return Err(format!("step {}: try_recv_timeout({} us) reported empty after waits of {:?} ms in total, less than {} ms", i, us, &pt[before..], want));
                 }
             }
